@@ -1044,6 +1044,21 @@ class C19:
                 bad = sorted(x for x in k if x.startswith("ok|") and strip_ctl_key(x, lines[i]) not in ku)
                 if bad:
                     res["violations"].append({"prog": lines[i], "deviation": "restricted-result-not-in-unrestricted:" + bad[0]})
+        # regions as blocks: every outcome of R with each stop_exploring..explore region executed without
+        # interference must be explored (the decisions outside the regions are still all taken)
+        nreg = 0
+        reg_idx = [i for i in range(len(ctl)) if lines[i].startswith("ctR") and i in fam.parsed]
+        if reg_idx:
+            f = os.path.join(ctx.dir, "regions.txt")
+            open(f, "w").write("\n".join(lines[i] if i in reg_idx else "" for i in range(len(ctl))) + "\n")
+            rk = driver_keys("refa", f)
+            for i in reg_idx:
+                k, fin = impl_keys(fam.parsed[i])
+                nreg += 1
+                miss = sorted(x for x in rk.get(i, {"keys": set()})["keys"] if x.startswith("ok|") and x not in k)
+                if miss and fin == "ok":
+                    res["violations"].append({"prog": lines[i], "deviation": "missing-outside-region:" + miss[0],
+                                              "impl_outcomes": sorted(k)[:12], "region_block_outcomes": sorted(rk[i]["keys"])[:12]})
         # limits
         lim_lines = []
         lim_expect = []
